@@ -43,6 +43,10 @@ SHORT = ["\\d", "\\s", "\\w"]
 
 
 def gen_set(rng):
+    if rng.random() < 0.03:
+        # a negated set that excludes every printable character and all white space: nothing belongs to it
+        return ("set", True, (("range", "!", "~"), ("short", "\\s")) if rng.random() < 0.5 else
+                (("short", "\\s"), ("range", "!", "~")))
     neg = rng.random() < 0.3
     items = []
     for _ in range(rng.randint(1, 3)):
